@@ -13,7 +13,23 @@ from . import ipgen, lines as L, secrets as S
 
 BENIGN_EXTRA = ["GigabitEthernet0/1", "vlan", "10", "mtu", "1500", "Te1/0/2", "ge-0/0/0.0", "!", "#", "{", "}", "exit-address-family",
                 "255", "0/0", "access-list", "101", "(config)", "rtr01", "=>", "Po1", "unit", "0;"]
-WORDS = ["zurich", "gotham", "kiwi", "intentionet", "seattle", "northwest", "north", "sea"]
+# "ter" and "sp" are parts of built-in reserved words (internet, router, ospf ...): those stay as written
+# (no listed word occurs in the scrub marker or in "netconanRemoved": that interplay is C15's subject, not a label question)
+WORDS = ["zurich", "gotham", "kiwi", "intentionet", "seattle", "northwest", "north", "sea", "ter", "sp"]
+_KW = re.compile(r"passw|secret|key|communit|md5|sha|snmp|auth|encrypt|crypt|hostname|tacacs|radius|neighbor|syscon|wpa|ldap|vpdn|wlccp|trap|isakmp|digest|l2tp|ppp|standby|username|phrase")
+_RES_CACHE = {}
+
+
+def reserved_hits(opts):
+    """Built-in reserved words containing a listed word (kept whole by design), none of them a secret keyword."""
+    from .. import load
+
+    key = tuple(sorted(w.lower() for w in opts["words"] if w))
+    if key not in _RES_CACHE:
+        res = load.nc().rw.default_reserved_words
+        _RES_CACHE[key] = sorted(r for r in res if r.isalpha() and r == r.lower() and len(r) >= 4 and not _KW.search(r)
+                                 and any(w in r for w in key))
+    return _RES_CACHE[key]
 ASNS = ["65000", "64999", "4200000123", "12345", "70000", "65535"]
 
 FEATURES = ["pwd", "ip", "words", "asn"]
@@ -69,7 +85,10 @@ def gen_plain_line(rng, opts):
     toks = []
     for _ in range(rng.randint(1, 7)):
         r = rng.random()
-        if r < 0.5:
+        if r < 0.06 and reserved_hits(opts):
+            t = rng.choice(reserved_hits(opts))
+            toks.append([rng.choice([t, t.upper(), t.capitalize()]), "benign"])
+        elif r < 0.5:
             t = rng.choice(L.BENIGN + BENIGN_EXTRA)
             if _benign_ok(t, opts):
                 toks.append([t, "benign"])
